@@ -236,20 +236,31 @@ func judgeConv(env *Env, r *vx.Run, mode string, c convCase, blocks []*types.Blo
 // RunConverge is the body of C25 (mode "C25") and C26 (mode "C26").
 func RunConverge(r *vx.Run, mode string, maxN int, restartAll bool) {
 	item := 0
-	runConverge(r, mode, maxN, restartAll, TrunkLen, &item)
-	if _, replay := r.Replaying(); !replay {
-		// the same with a trunk one block shorter: the first level of every tree is the lowest height at which
-		// the node reorganises at all (finalised height + 12), so siblings there decide by weight and order
-		n := maxN
-		if n > 3 {
-			n = 3
-		}
-		runConverge(r, mode, n, restartAll, TrunkLen-1, &item)
-		runFinalised(r, mode, &item)
+	if _, replay := r.Replaying(); replay {
+		runConverge(r, mode, 1, maxN, restartAll, TrunkLen, &item)
+		return
+	}
+	// the parts that always complete come first; the largest tree size, which runs under the wall
+	// budget, comes last so that it cannot starve them
+	small := maxN
+	if small > 4 {
+		small = 4
+	}
+	runConverge(r, mode, 1, small, restartAll, TrunkLen, &item)
+	// the same with a trunk one block shorter: the first level of every tree is the lowest height at which
+	// the node reorganises at all (finalised height + 12), so siblings there decide by weight and order
+	n := maxN
+	if n > 3 {
+		n = 3
+	}
+	runConverge(r, mode, 1, n, restartAll, TrunkLen-1, &item)
+	runFinalised(r, mode, &item)
+	if maxN > small {
+		runConverge(r, mode, small+1, maxN, restartAll, TrunkLen, &item)
 	}
 }
 
-func runConverge(r *vx.Run, mode string, maxN int, restartAll bool, trunk int, itemp *int) {
+func runConverge(r *vx.Run, mode string, minN, maxN int, restartAll bool, trunk int, itemp *int) {
 	if raw, ok := r.Replaying(); ok {
 		var c convCase
 		if json.Unmarshal(raw, &c) == nil && c.Trunk != 0 {
@@ -298,7 +309,7 @@ func runConverge(r *vx.Run, mode string, maxN int, restartAll bool, trunk int, i
 	}
 	item := *itemp
 	defer func() { *itemp = item }()
-	for n := 1; n <= maxN; n++ {
+	for n := minN; n <= maxN; n++ {
 		for _, sh := range Shapes(n) {
 			best := sh.Best()
 			if best < 0 && mode == "C25" {
